@@ -64,9 +64,27 @@ def groups(pool, depth, atoms=None, max_groups=4, max_atoms=4):
         explicit = st.tuples(inner, count_str(), _pads()).map(
             lambda t: ["e", t[0][0], t[0][1], t[1], t[2]])
         g = st.one_of(leaf, leaf, explicit)
-    return st.lists(g, min_size=1, max_size=max_groups).flatmap(
+    plain = st.lists(g, min_size=1, max_size=max_groups).flatmap(
         lambda gs: st.lists(st.sampled_from(SEPS), min_size=len(gs) - 1, max_size=len(gs) - 1
                             ).map(lambda ss: (gs, ss)))
+    # an ECHO: one group of the sequence is moved to the front and written once more at the end with another count
+    # ('(H2O)2 NaCl (H2O)3', '2H2O + 3H2O'): equal groups inside one formula are where a memo of sub-results would bite
+    echo = st.one_of(st.none(), st.none(), st.none(),
+                     st.tuples(st.integers(0, 7), count_str(), st.sampled_from(SEPS)))
+    return st.tuples(plain, echo).map(_echo)
+
+
+def _echo(t):
+    (gs, ss), e = t
+    if e is None:
+        return gs, ss
+    import copy
+    j = e[0] % len(gs)
+    first = gs[j]
+    twin = copy.deepcopy(first)
+    twin[1 if twin[0] == "i" else 3] = e[1]
+    rest = [g for k, g in enumerate(gs) if k != j]
+    return [first] + rest + [twin], list(ss) + [e[2]]
 
 
 def density_tag():
